@@ -1,6 +1,7 @@
 package rules
 
 import (
+	"go/types"
 	"go/token"
 	"fmt"
 	"golang.org/x/tools/go/ssa"
@@ -230,6 +231,72 @@ func checkC04(p *core.Program, r *core.Report) {
 			}
 		}
 	}
+	// a received close announce/confirm is handled to the end before control returns to the receive loop
+	closeModel := p.Named("model", "ConnectionClose")
+	runsOnce := core.NewMust(p, 3, func(in ssa.Instruction) bool {
+		c := core.Common(in)
+		if c == nil {
+			return false
+		}
+		if _, isGo := in.(*ssa.Go); isGo {
+			return false
+		}
+		return core.IsStaticCall(in, "(*sync.Once).Do") && f.connFieldAddr(c.Args[0]) == f.fOnce
+	})
+	nclose := 0
+	for _, fn := range p.FuncsOf("ship") {
+		// functions that decode a received ConnectionClose
+		decodes := false
+		core.EachInstr(fn, func(in ssa.Instruction) {
+			c, ok := in.(*ssa.Call)
+			if !ok {
+				return
+			}
+			for _, a := range c.Call.Args {
+				if mi, ok := a.(*ssa.MakeInterface); ok && closeModel != nil && core.NamedOf(mi.X.Type()) == closeModel {
+					if _, isPtr := mi.X.Type().(*types.Pointer); isPtr {
+						decodes = true
+					}
+				}
+			}
+		})
+		if !decodes {
+			continue
+		}
+		// every comparison of the decoded phase with announce/confirm: its taken branch must close synchronously
+		for _, b := range fn.Blocks {
+			iff := core.BlockIf(b)
+			if iff == nil {
+				continue
+			}
+			for idx := range b.Succs {
+				v, truth := core.Truth(iff.Cond, idx)
+				bo, ok := v.(*ssa.BinOp)
+				if !ok || bo.Op != token.EQL || !truth {
+					continue
+				}
+				c, isStr := strConst(bo.Y)
+				if !isStr || (c != "announce" && c != "confirm") || !core.TypeIs(bo.Y.Type(), modelPath, "ConnectionClosePhaseType") {
+					continue
+				}
+				nclose++
+				first := b.Succs[idx].Instrs[0]
+				key := "received close " + c + " in " + shortFn(p.FnName(fn)) + " closes before returning"
+				var bad ssa.Instruction
+				if !runsOnce.Instr(first) {
+					bad = core.PathSearch(fn, first, core.IsReturn, runsOnce.Instr, nil)
+				}
+				if bad != nil {
+					r.Fail(R2, key, p.Pos(first.Pos()), "after a received close "+c+" the handler returns to the receive loop without having run the close routine (e.g. it only schedules the close): messages the peer sends right after are still fed into the state machine, which reports progress states, sends handshake messages and re-arms the timer after the closing exchange")
+				} else {
+					r.OK(R2, key, p.Pos(first.Pos()), "the close routine runs synchronously on every path")
+				}
+			}
+		}
+	}
+	if nclose < 2 {
+		r.Fail(R2, "received close handling", "", "the handler of the peer's close announce/confirm was not found")
+	}
 	r.Floor(R2, 5)
 	fsmTerminalRules(fr, r, R3, R4)
 	r.Floor(R3, 4)
@@ -324,7 +391,7 @@ func checkC01(p *core.Program, r *core.Report) {
 	const R2 = "C01.R2 setup-gate"
 	const R3 = "C01.R3 data-gate"
 	const R4 = "C01.R4 hub-trust-writers"
-	r.Explanation = "C01 (trust gate): decided as an inductive invariant over the automaton extracted from package ship (all entries x all 40 states x both roles, every write may fail): (R1) every transition from a pre-trust state into a post-trust state (ready*, hello-ok, protocol, pin, access, approved, complete) is taken on a path that passed the positive edge of a trust predicate (IsRemoteServiceForSKIPaired(remoteSKI), IsAutoAcceptEnabled(), role == client), or is the PendingListen->ReadyInit step of the user-approval entry; so 'state is post-trust' implies 'trust was granted', whatever message/timeout/error sequence the peer causes; (R2) the remote-device setup callback is only reachable in state Approved; (R3) the SPINE reader is written only with the result of that callback, payloads are delivered only through that field and only when it is set; (R4) in package hub trust is set only by RegisterRemoteSKI or on a hello-ok state report, the trust predicates return exactly the stored flags, and ApprovePendingHandshake is called only from RegisterRemoteSKI; (R5) a user cancel reaches the connection: the abort entry takes both waiting states to a terminal state on every path, and cancel/unregister find the live connection under every spelling of the SKI. Not decided: the application's own AllowWaitingForTrust / UI logic."
+	r.Explanation = "C01 (trust gate): decided as an inductive invariant over the automaton extracted from package ship (all entries x all 40 states x both roles, every write may fail): (R1) every transition from a pre-trust state into a post-trust state (ready*, hello-ok, protocol, pin, access, approved, complete) is taken on a path that passed the positive edge of a trust predicate (IsRemoteServiceForSKIPaired(remoteSKI), IsAutoAcceptEnabled(), role == client), or is the PendingListen->ReadyInit step of the user-approval entry; so 'state is post-trust' implies 'trust was granted', whatever message/timeout/error sequence the peer causes; (R2) the remote-device setup callback is only reachable in state Approved; (R3) the SPINE reader is written only with the result of that callback, payloads are delivered only through that field and only when it is set; (R4) in package hub trust is set only by RegisterRemoteSKI or on a hello-ok state report, the trust predicates return exactly the stored flags, and ApprovePendingHandshake is called only from RegisterRemoteSKI; (R6) the hub dials - and thereby creates role-trusted client connections - only behind the paired-or-queued gate; (R5) a user cancel reaches the connection: the abort entry takes both waiting states to a terminal state on every path, and cancel/unregister find the live connection under every spelling of the SKI. Not decided: the application's own AllowWaitingForTrust / UI logic."
 	r.Rule(R1, "every extracted edge s->K with s pre-trust, K post-trust is on a trusted path, or is PendingListen->ReadyInit in the approve entry")
 	r.Rule(R2, "SetupRemoteDevice is invoked only at state Approved")
 	r.Rule(R3, "dataReader is stored only from SetupRemoteDevice's result at state Approved; HandleShipPayloadMessage is invoked only on that field and only when it is set")
@@ -429,6 +496,15 @@ func checkC01(p *core.Program, r *core.Report) {
 	r.Floor(R2, 1)
 	r.Floor(R3, 3)
 	checkHubTrust(p, r, R4)
+	// R6: the hub dials (client role = trusted by role) only behind the paired-or-queued gate
+	const R6 = "C01.R6 dial-gate"
+	r.Rule(R6, "single gated dial function; client-role construction only there; mDNS report starts attempts only for paired-or-queued SKIs; Queued only set by RegisterRemoteSKI (rule shared with C10.R1)")
+	if ha := findHub(p, r, R6); ha != nil {
+		q := connStateEdge(p, "ConnectionStateQueued")
+		gQueuedConst = p.Const("api", "ConnectionStateQueued")
+		queuedEdgeGlobal = q
+		checkDialGate(p, r, ha, R6, orEdges(pairedEdge, q))
+	}
 	// R5: cancelling / unregistering acts on the live connection, so the handshake cannot complete later
 	const R5 = "C01.R5 cancel-reaches-the-connection"
 	r.Rule(R5, "the abort entry ends terminal from both waiting states (ship automaton); CancelPairingWithSKI / UnregisterRemoteSKI look the connection up under the normalised SKI (taint rule of C15 restricted to them)")
